@@ -314,6 +314,23 @@ def check_write_all(ctx):
     visit(loop.body, [])
     bad = [g for g in guards if 'status' in txt(g) or 'TaskStatus' in txt(g)
            or 'is_done' in txt(g)]
+    # a skip decided on clocks / times: the master changes a status (DONE ->
+    # WAITING -> SKIPPED when a dependency is re-run and fails) without
+    # touching the clocks, so "did not run since" does not mean "unchanged"
+    clocky = [g for g in guards if g not in bad and any(
+        word in txt(g) for word in ('clock', 'since', 'time', 'mtime',
+                                    'st_mtime'))]
+    for test in clocky:
+        ctx.violated('WRITE-ALL', func, f'write_env: writing skipped on a '
+                     f'clock: `{txt(test)[:60]}`', at=func.where(test),
+                     detail='only the workers update the clocks; the master '
+                            'moves a restored DONE task to SKIPPED without '
+                            'them, and its file keeps saying DONE')
+    other = [g for g in guards if g not in bad and g not in clocky and
+             'output_dir' not in txt(g)]
+    for test in other:
+        ctx.undecided('WRITE-ALL', func, f'write_env: writing guarded by '
+                      f'`{txt(test)[:60]}`', at=func.where(test))
     if bad:
         for test in bad:
             ctx.violated('WRITE-ALL', func, f'write_env: writing guarded by '
@@ -389,3 +406,58 @@ def check_write_invalidates(ctx):
         ctx.violated('WRITE-INVALIDATE', func, f'to_file: {txt(call)[:50]}',
                      at=func.where(call),
                      detail='write-then-rename: see above')
+
+
+# ------------------------------------------------------------ READ-PATH ---
+
+PATTERN_CALLS = {'glob', 'iglob', 'rglob', 'fnmatch', 'fnmatchcase',
+                 'filter', 'match', 'search', 'fullmatch', 'compile',
+                 'translate'}
+
+
+def check_read_path(ctx):
+    """The reader opens, for every task it is asked about, THE file the
+    writer wrote: the path is composed from the root, the task name and the
+    file name.  A path found by pattern matching (glob / fnmatch / regular
+    expression built from those strings) reads them as patterns: `[`, `]`,
+    `*`, `?` in the output root or the file name, or a task name starting
+    with a dot, and an intact DONE entry silently comes back as not done."""
+    from . import verdict as V
+    program = ctx.program
+    func = program.func('valjean.cambronne.common:read_env')
+    program.consulted.add(func.module.relpath)
+    tainted = set()
+    for node in ast.walk(func.node):
+        src, tgts = None, []
+        if isinstance(node, ast.Assign):
+            src, tgts = node.value, node.targets
+        elif isinstance(node, (ast.For, ast.comprehension)):
+            src, tgts = node.iter, [node.target]
+        if src is None:
+            continue
+        if any(isinstance(c, ast.Call) and call_name(c) in PATTERN_CALLS
+               and (call_name(c) not in ('filter', 'match', 'search',
+                                         'compile') or
+                    'fnmatch' in txt(c) or 're.' in txt(c))
+               for c in ast.walk(src)):
+            for tgt in tgts:
+                tainted |= {n.id for n in ast.walk(tgt)
+                            if isinstance(n, ast.Name)}
+    derived = V.derived_names(func.node, tainted) if tainted else set()
+    n = 0
+    for call in calls_in(func.node):
+        if call_name(call) != 'from_file' or not call.args:
+            continue
+        n += 1
+        arg = call.args[0]
+        via = V.mentions(arg, derived) if derived else False
+        direct = any(isinstance(c, ast.Call) and call_name(c) in (
+            'glob', 'iglob', 'rglob') for c in ast.walk(arg))
+        ctx.decide('READ-PATH', func,
+                   f'read_env: path handed to from_file: {txt(arg)[:50]}',
+                   not (via or direct), at=func.where(call),
+                   detail=None if not (via or direct) else
+                   'the path comes out of a pattern match on the names: '
+                   'special characters of the root / file name and hidden '
+                   'task directories make intact entries invisible')
+    ctx.floor('READ-PATH', n, 1, 'from_file call in read_env')
